@@ -110,4 +110,37 @@ pub mod verif {
     pub use crate::bs_write::ByteStreamWriteBuffer;
     pub use crate::paged_reader::PagedReader;
     pub use crate::paged_writer::PagedWriter;
+
+    /// Bit size of a record data type.
+    pub fn dtype_bit_size(dt: &crate::RecordDataType) -> usize {
+        dt.bit_size()
+    }
+
+    /// Serialize one value into a byte stream buffer.
+    pub fn dtype_write(
+        dt: &crate::RecordDataType,
+        value: &crate::RecordValue,
+        buffer: &mut ByteStreamWriteBuffer,
+    ) -> crate::Result<()> {
+        dt.write(value, buffer)
+    }
+
+    /// Unpack all complete values of a non-zero-width record from a byte stream.
+    pub fn unpack(
+        dt: &crate::RecordDataType,
+        stream: &mut ByteStreamReadBuffer,
+        output: &mut std::collections::VecDeque<crate::RecordValue>,
+    ) -> crate::Result<()> {
+        use crate::bitpack::BitPack;
+        match dt {
+            crate::RecordDataType::Single { .. } => BitPack::unpack_singles(stream, output),
+            crate::RecordDataType::Double { .. } => BitPack::unpack_doubles(stream, output),
+            crate::RecordDataType::ScaledInteger { min, max, .. } => {
+                BitPack::unpack_scaled_ints(stream, *min, *max, output)
+            }
+            crate::RecordDataType::Integer { min, max } => {
+                BitPack::unpack_ints(stream, *min, *max, output)
+            }
+        }
+    }
 }
